@@ -1,6 +1,6 @@
 (* C05 (4), callback level: a callback that refuses a request leaves the payload as it was. *)
 From Coq Require Import String List NArith ZArith Bool Lia.
-Require Import Fsm.EngineDefs Fsm.Types Fsm.Engine Fsm.EngineFacts Fsm.Actions Fsm.Provider.
+Require Import Fsm.EngineDefs Fsm.Types Fsm.Engine Fsm.EngineFacts Fsm.Actions Fsm.Provider Fsm.Handover.
 Import ListNotations.
 
 Ltac crush_err :=
@@ -72,10 +72,10 @@ Qed.
    and so does an event without a route (nothing is called at all) *)
 Theorem do_route_or_refusal_noop (i : instance) ev req :
   match inst_do i ev req with
-  | IRoute i' => i' = i
+  | IRoute i' => dump_of i' = dump_of i
   | _ => True
   end.
 Proof.
-  unfold inst_do. destruct (table_by_name (i_mach i)); [|reflexivity].
-  destruct (fsm_do _ _ _ _ _ _); auto.
+  unfold inst_do, inst_do_core. destruct (table_by_name (i_mach (handover i))); [|apply dump_of_handover].
+  destruct (fsm_do _ _ _ _ _ _); auto. apply dump_of_handover.
 Qed.
